@@ -1,4 +1,4 @@
 INIT Init
 NEXT Next
-INVARIANTS SqrtAgrees SqrtExactFlag CbrtAgrees
+INVARIANTS BinadeCase SqrtAgrees SqrtExactFlag CbrtAgrees
 CHECK_DEADLOCK FALSE
